@@ -227,6 +227,19 @@ def _stream_case(args):
     return out
 
 
+def productive_order(rules):
+    """certificate for Lean's `productiveB`: indices of rules in an order in which every nonterminal of a right-hand side is the left-hand side of an earlier rule;
+    the Lean checker decides whether it proves every rule productive (EarleyProto.productiveB_sound) — nothing here is trusted"""
+    done, order, used = set(), [], set()
+    changed = True
+    while changed:
+        changed = False
+        for k, r in enumerate(rules):
+            if k not in used and all(kind == 1 or n in done for kind, n in r['rhs']):
+                used.add(k); order.append(k); done.add(r['lhs']); changed = True
+    return order
+
+
 def earley_stream(ctx, salt, n_quick, n_thorough, ntexts=4):
     """generate grammars, run the real parser and the Lean chart; yields (grammar, rec, model) with rec as above"""
     from common import pmap, run_driver_parallel, tier_scale
@@ -246,7 +259,7 @@ def earley_stream(ctx, salt, n_quick, n_thorough, ntexts=4):
         for rec in recs:
             if 'build' in rec or rec.get('timeout') or rec.get('lexfail') or rec.get('unknown_tok'):
                 flat.append((job[0], rec, None)); continue
-            cases.append({'op': 'earley', 'rules': rec['rules'], 'n': rec['n'], 'edges': rec['edges'], 'igns': rec['igns'], 'start': rec.get('start_id', 0)})
+            cases.append({'op': 'earley', 'rules': rec['rules'], 'n': rec['n'], 'edges': rec['edges'], 'igns': rec['igns'], 'start': rec.get('start_id', 0), 'order': productive_order(rec['rules'])})
             flat.append((job[0], rec, len(cases) - 1))
     model = run_driver_parallel(cases, timeout=900)
     return [(g, rec, model[k] if k is not None else None) for g, rec, k in flat], problems
